@@ -104,7 +104,7 @@ pub fn profile(prop: &str) -> Profile {
         },
         "C11" => Profile {
             prop: "C11",
-            w: [18, 16, 16, 30, 3, 1, 2, 2, 2, 2, 3, 0, 0, 0, 0, 3, 0, 4],
+            w: [18, 16, 16, 30, 3, 1, 2, 2, 2, 2, 3, 0, 0, 1, 0, 3, 0, 4],
             kind_w: [30, 30, 35, 2, 1, 2],
             size_w: [30, 65, 5, 0, 0],
             obs_level: 1,
